@@ -336,18 +336,24 @@ func (R *Repository) updateCrlEntry(entry *Entry, newChains *core.CertificateCha
 	if err != nil {
 		return err
 	}
-	R.logger.Info("verify crl signature of crl " + entry.CRLLoader.GetDescription())
-	signatureCert, err := verifyCRLSignature(result, chains)
-	if err != nil {
-		R.setLastSignatureVerifyFailed(entry, result)
-		return err
-	} else {
-		R.resetLastSignatureVerifyFailed(entry)
-	}
-
-	err = processor.UpdateSignatureCertificate(signatureCert)
-	if err != nil {
-		return err
+	//the signature validation mode means the same for a refresh as for the first load
+	if R.crlConfig.SignatureValidationModeParsed != config.SignatureValidationModeNone {
+		R.logger.Info("verify crl signature of crl " + entry.CRLLoader.GetDescription())
+		signatureCert, verifyErr := verifyCRLSignature(result, chains)
+		if verifyErr != nil {
+			R.setLastSignatureVerifyFailed(entry, result)
+			if R.crlConfig.SignatureValidationModeParsed == config.SignatureValidationModeVerify {
+				err = verifyErr
+				return err
+			}
+			R.logger.Warn("could not validate signature of crl", zap.String("crl", entry.CRLLoader.GetDescription()))
+		} else {
+			R.resetLastSignatureVerifyFailed(entry)
+			err = processor.UpdateSignatureCertificate(signatureCert)
+			if err != nil {
+				return err
+			}
+		}
 	}
 
 	err = R.updateEntry(entry, err, store)
